@@ -42,7 +42,7 @@ def _user_calls(tr, b):
 
 def run(facts, tr, rep):
     # shallow view: a strategy arm moved into a private (async) helper function is analysed in place
-    facts, tr = facts.shallow, tr.shallow
+    facts, tr = facts.inl, tr.inl
     _n_cl = check_clone_variants(facts, tr, rep, "C17.CLONE-FAITHFUL", crate_names=["tower_resilience_fallback"])
     rep.note("hand-written enum Clone arms examined: %d" % _n_cl)
     sbs = service_call_bodies(facts, crate=CRATE)
@@ -124,12 +124,16 @@ def run(facts, tr, rep):
                "user-supplied fallback code runs only on the Err edge of the inner result" if ok else
                "user-supplied fallback code (%s) can run although the inner call succeeded or has not been made yet" % uc.path[:70])
     # ---------------------------------------------------------------- GATE
-    strat_sw = None
+    strat_sw, strat_size = None, -1
     for bb in range(g.n):
         sw = g.switch(bb)
-        if sw is None or sw.kind != "enum" or not ({"Value", "Exception", "Service"} <= set(sw.variants)):
+        if sw is None or sw.kind != "enum" or not ({"Value", "Exception", "Service"} <= set(sw.variants)) or not g.live(bb):
             continue
-        strat_sw = sw
+        # the dispatch is the match on the strategy whose arms hold the work (a `strategy.label()` helper inlined next to
+        # it matches on the same enum with one-block arms)
+        size = len({x for t_ in set(sw.variants.values()) if t_ is not None for x in g.reach([t_], kinds=(N,)) if g.edge_dominates((bb, t_), x)})
+        if strat_sw is None or size > strat_size:
+            strat_sw, strat_size = sw, size
     if strat_sw is None:
         rep.anchor_missing("dispatch on FallbackStrategy in the fallback call future")
         return
@@ -228,6 +232,20 @@ def run(facts, tr, rep):
     rep.ob("C17.GATE", skey(b, "predicate-gate"), gate_ok, gate_where,
            "the strategy runs only when handle_predicate.map(|p| p(&error)).unwrap_or(true) is true for the current error" if gate_ok else
            "the strategy dispatch is not gated by handle_predicate applied to the current error with default `true`")
+    # GATE-ONCE: one error, one decision.  The predicate is user code and need not be pure (a budget, a sampler): applied
+    # twice to the same error its answers may differ, and then the error is announced as handled but returned unhandled
+    papps = []
+    for c_ in g.calls():
+        if c_.def_ in FN_TRAITS and len(c_.args) == 2 and g.live(c_.bb):
+            callee = tr.expand(tr.operand(b, c_.args[0], c_.loc), upvars=True)
+            if pred_field(callee):
+                papps.append(c_)
+    again = [(x, y) for x in papps for y in papps if x is not y and x.target is not None and y.bb in g.reach([x.target], kinds=(N,))]
+    rep.ob("C17.GATE-ONCE", skey(b, "predicate-applications"), bool(papps) and not again, again[0][1].where() if again else (papps[0].where() if papps else "-"),
+           "the handle predicate is applied once per inner error" if papps and not again else
+           ("the handle predicate is applied again at %s to an error it has already judged at %s: with a predicate that is not pure the two "
+            "answers can differ (announced as handled, returned unhandled)" % (again[0][1].where(), again[0][0].where()) if again else
+            "no application of the handle predicate found in the call future"))
     if false_tgt is not None:
         okf = False
         for (i, j, node) in ret_assigns(tr, b):
